@@ -827,13 +827,16 @@ def nunique_df_combine(dfs, *args, **kwargs):
     return _nunique_df_combine(concat(dfs), *args, **kwargs)
 
 
-def nunique_df_aggregate(dfs, levels, name, sort=False):
+def nunique_df_aggregate(dfs, levels, name, sort=False, dropna=None):
     df = concat(dfs)
+    dropna = _as_dict("dropna", dropna)
     if df.ndim == 1:
         # split out reduces to a Series
-        return df.groupby(level=levels, sort=sort, observed=True).nunique()
+        return df.groupby(level=levels, sort=sort, observed=True, **dropna).nunique()
     else:
-        return df.groupby(level=levels, sort=sort, observed=True)[name].nunique()
+        return df.groupby(level=levels, sort=sort, observed=True, **dropna)[
+            name
+        ].nunique()
 
 
 class NUnique(SingleAggregation):
@@ -844,7 +847,11 @@ class NUnique(SingleAggregation):
     def chunk(df, *by, **kwargs):
         if df.ndim == 1:
             df = df.to_frame()
-            kwargs = dict(name=df.columns[0], levels=_determine_levels(by))
+            kwargs = dict(
+                name=df.columns[0],
+                levels=_determine_levels(by),
+                **_as_dict("dropna", kwargs.get("dropna")),
+            )
         return _nunique_df_chunk(df, *by, **kwargs)
 
     @functools.cached_property
@@ -855,11 +862,16 @@ class NUnique(SingleAggregation):
 
     @functools.cached_property
     def aggregate_kwargs(self) -> dict:  # type: ignore[override]
-        return {"levels": self.levels, "name": self._slice}
+        return {
+            "levels": self.levels,
+            "name": self._slice,
+            "sort": self.sort,
+            **_as_dict("dropna", self.dropna),
+        }
 
     @functools.cached_property
     def combine_kwargs(self):
-        return {"levels": self.levels}
+        return {"levels": self.levels, **_as_dict("dropna", self.dropna)}
 
 
 class Head(SingleAggregation):
